@@ -84,11 +84,23 @@ def predict_case(case, ctx):
     else:
         want = [torch.cat([r[k] for r in rows]) for k in range(len(outputs))]
     net.calls.clear()
-    model.train()                     # handed over in training mode
-    kw = {"args": tuple(args)} if nargs else {}
+    if case.get("hand_over") == "eval_root_train_sub" and isinstance(model, Wrapped):
+        model.eval()                  # root already in eval mode (e.g. after an earlier predict) ...
+        for sub_ in (model.drop, model.bn):
+            if sub_ is not None:
+                sub_.train()          # ... but Dropout / BatchNorm switched back on (MC-dropout recipe, partial fine-tuning)
+        ctx.label("root_eval_submodules_train")
+    else:
+        model.train()                 # handed over in training mode
+    kw = {"args": tuple(args)} if nargs else ({} if case.get("empty_args") is None else {"args": () if case["empty_args"] == "tuple" else []})
     if case.get("bad_arg") is not None and nargs:
         bad = list(args)
-        bad[case["bad_arg"] % nargs] = bad[case["bad_arg"] % nargs][: n - 1] if n > 1 else torch.zeros((2, 1), dtype=torch.int64)
+        j_ = case["bad_arg"] % nargs
+        delta = case.get("bad_delta", -1)
+        if delta < 0 and n + delta >= 1:
+            bad[j_] = bad[j_][: n + delta]                                   # too short
+        else:
+            bad[j_] = torch.cat([bad[j_], bad[j_][: max(1, abs(delta))]])      # too long (e.g. built for the full data set)
         ctx.nt()
         ctx.label("mismatched_arg")
         try:
@@ -137,7 +149,9 @@ def _case(draw, n, b):
             "container": container, "has_param": draw(st.integers(0, 5)) > 0, "bn": draw(st.booleans()), "dropout": draw(st.booleans()),
             "bad_arg": draw(st.one_of(st.none(), st.none(), st.none(), st.none(), st.integers(0, 2))),
             "arg_dtypes": [draw(st.sampled_from(["int64", "int64", "float64"])) for _ in range(nargs)],
-            "param_dtype": draw(st.sampled_from(["float64", "float64", "float32"]))}
+            "param_dtype": draw(st.sampled_from(["float64", "float64", "float32"])),
+            "bad_delta": draw(st.sampled_from([-1, -1, -2, 1, 2, 3])), "hand_over": draw(st.sampled_from(["train", "train", "eval_root_train_sub"])),
+            "empty_args": draw(st.sampled_from([None, "tuple", "list"]))}
 
 
 @st.composite
